@@ -21,7 +21,12 @@ ATOMIC_READ_NAMES = ("load",)
 
 
 def callee_str(c):
-    return strip_generics(c.resolved or c.def_ or "")
+    s = strip_generics(c.resolved or c.def_ or "")
+    body = getattr(c, "body", None)
+    al = getattr(getattr(body, "facts", None), "sid_alias", None) if body is not None else None
+    if al and s in al:
+        return al[s]      # a renamed / moved private function, under its pinned name
+    return s
 
 
 def is_blocking_extern(c):
